@@ -43,6 +43,10 @@ type ShapeConfig struct {
 	IsArrayFunc func(*ssa.Function) bool
 	// SkipParam: parameters that must not influence the result (worker-pool size).
 	SkipParam func(fn *ssa.Function, p *ssa.Parameter) bool
+	// PartitionDecided: the function's spawned index ranges are decided to partition [0,n) elsewhere (C10's
+	// SYM-PART covers the parallel helpers of package modeling). For other functions an element loop inside a
+	// spawned closure is not accepted: nothing shows that the ranges handed to the workers cover every element.
+	PartitionDecided func(fn *ssa.Function) bool
 }
 
 func (r *ShapeResult) add(rule string, ok bool, at ssa.Instruction, detail string) {
@@ -591,6 +595,9 @@ func checkLoopForm(res *ShapeResult, fn *ssa.Function, at ssa.Instruction, data 
 				}
 			}
 			full, why := fullRange(phi, off, idx, l, src, dst, f != fn)
+			if f != fn && full && (cfg.PartitionDecided == nil || !cfg.PartitionDecided(fn)) {
+				full, why = false, "the element loop runs in a spawned closure over a range taken from the closure's parameters, and no rule decides that the ranges handed to the workers partition [0, n) for this function (SYM-PART of C10 covers the parallel helpers of package modeling only)"
+			}
 			res.add("SHAPE-4", uncond && full, st, map[bool]string{true: "unconditional store in a loop over the whole range", false: "store is conditional or the loop does not cover the whole range: " + why}[uncond && full])
 		}
 		vals = append(vals, st.Val)
